@@ -415,6 +415,48 @@ Definition dpos (k : hkey) (out : list deliv) : list nat :=
 Definition is_part_kind (m : matcher) : bool :=
   match m with MAllP _ | MPart _ _ | MParts _ _ => true | _ => false end.
 
+(* ---- vocabulary of the property statements *)
+Definition fs_start (fs : fromspec) (k : nat) : option nat :=
+  match fs with
+  | FLatest => None
+  | FMap m fb => match alookup k m with Some n => Some n | None => fb end
+  | FAll n => Some n
+  end.
+(* the explicit start position of key k in a matcher (None: "latest", or the key is not subscribed) *)
+Definition sub_start (m : matcher) (k : hkey) : option nat :=
+  match m, k with
+  | MAllP fs, KP p => fs_start fs p
+  | MPart p' from, KP p => if p =? p' then from else None
+  | MParts ps fs, KP p => if memb p ps then fs_start fs p else None
+  | MStream s' from, KS s => if s =? s' then from else None
+  | MStreams ss fs, KS s => if memb s ss then fs_start fs s else None
+  | _, _ => None
+  end.
+(* partition keys for the partition kinds of subscription, stream keys for the stream kinds *)
+Definition key_kind (m : matcher) (k : hkey) : bool :=
+  match k with KP _ => is_part_kind m | KS _ => negb (is_part_kind m) end.
+Definition kpid (c : sbcfg) (k : hkey) : nat := match k with KP p => p | KS s => spid c s end.
+(* a, a+1, a+2, ... *)
+Definition consecutive (l : list nat) : Prop := exists a, l = seq a (length l).
+(* records sent and not yet acknowledged right after record d went out (acknowledgements are cumulative) *)
+Definition unacked_after (d : deliv) : nat := match d_ack d with Some a => d_cur d - a | None => d_cur d + 1 end.
+
+(* matchers as the ESUB / EPSUB request parsers build them: ids without duplicates, explicit stream
+   positions only for subscribed streams (FromVersions has no fallback) *)
+Definition fs_wf (fs : fromspec) : Prop := match fs with FMap m _ => NoDup (map fst m) | _ => True end.
+Definition wf_matcher (m : matcher) : Prop :=
+  match m with
+  | MAllP fs => fs_wf fs
+  | MParts ps fs => NoDup ps /\ fs_wf fs
+  | MStreams ss fs => NoDup ss /\ fs_wf fs /\ match fs with FMap m fb => fb = None /\ incl (map fst m) ss | _ => True end
+  | _ => True
+  end.
+Definition op_wf (o : sbop) : Prop := match o with OSubscribe m _ => wf_matcher m | _ => True end.
+Definition ops_wf (ops : list sbop) : Prop := Forall op_wf ops.
+
+(* the task has nothing left to do: live, nothing received and waiting, channel empty, not lagged *)
+Definition sub_idle (u : subst) : Prop := u_ph u = PLive /\ u_hold u = None /\ u_q u = [] /\ u_lagn u = 0.
+
 Inductive sbwait := WNone | WGate | WWindow | WLive | WBusy.
 Definition sb_wait (c : sbcfg) (st : sbstate) : sbwait :=
   match sb_sub st with
